@@ -8,6 +8,7 @@ import (
 	"time"
 
 	"github.com/blevesearch/bleve/v2"
+	"github.com/blevesearch/bleve/v2/analysis"
 	"github.com/blevesearch/bleve/v2/document"
 	"github.com/blevesearch/bleve/v2/index/scorch"
 	"github.com/blevesearch/bleve/v2/mapping"
@@ -178,6 +179,15 @@ func highlightRun(indexType string, docs []input, styles []hlStyle, seed int64, 
 		f()
 		return ""
 	}
+	analyzers := map[string]analysis.Analyzer{}
+	for _, f := range fields {
+		a := m.AnalyzerNamed(f.Analyzer)
+		if a == nil {
+			return nil, fmt.Errorf("analyzer %s of field %s not found", f.Analyzer, f.Name)
+		}
+		analyzers[f.Name] = a
+	}
+	seenAnalyze := map[string]bool{}
 	// index in batches; a panic while indexing (analysis) is attributed to the batch's documents one by one
 	for i := 0; i < len(docs); i += 200 {
 		j := i + 200
@@ -191,6 +201,17 @@ func highlightRun(indexType string, docs []input, styles []hlStyle, seed int64, 
 			values[id] = v
 			data := map[string]interface{}{}
 			for _, f := range fields {
+				// indexing analyses in worker goroutines where a panic cannot be recovered: analyse
+				// here first, and leave the field out (recording the failure) if its analyzer panics
+				a := analyzers[f.Name]
+				if msg := guard("Analyze", func() { a.Analyze(append([]byte{}, v...)) }); msg != "" {
+					key := f.Name + "|" + normMsg(msg)
+					if !seenAnalyze[key] {
+						seenAnalyze[key] = true
+						res.failures = append(res.failures, &hlFailure{Kind: "panic", Field: f.Name, Style: "index", Query: "analyze", Msg: msg, Docs: []string{docs[k].Class}})
+					}
+					continue
+				}
 				data[f.Name] = string(v)
 			}
 			if msg := guard("batch.Index", func() {
